@@ -200,6 +200,9 @@ impl Runner {
             Ev::Hostile { target, mutation, parser } => ev_hostile(w, target, mutation, parser),
             Ev::Audit => w.ev_audit(),
             Ev::Golden => crate::golden::check_golden(w),
+            Ev::SweepSlot { slot, mode, stride } => w.sweep_slot(*slot, mode, *stride),
+            Ev::SweepUsk { user } => w.sweep_usk(*user),
+            Ev::SweepHostile { target, parser, stride } => sweep_hostile(w, target, parser, *stride),
         }
         if w.outcomes.len() == n_out {
             w.outcomes.push("-".into());
@@ -351,6 +354,7 @@ pub fn run_seed(prop: &str, seed: u64, thorough: bool, record: Option<&str>) -> 
     let n_enc = sw.n_encryptors;
     let n_events = sw.n_events;
     let mut gen = Gen::new(prop, sw);
+    gen.thorough = thorough;
     let mut runner = match Runner::new(prop, seed, n_users, n_enc) {
         Ok(r) => r,
         Err(e) => {
@@ -668,4 +672,68 @@ pub fn ev_hostile(w: &mut World, target: &HostileTarget, mutation: &HostileMut, 
             format!("{mk}: peak {peak} bytes (largest request {largest}) for {} input bytes, budget {budget}", bytes.len()),
         );
     }
+}
+
+/// Enumerated hostile rewrites of one object (C14).
+pub fn sweep_hostile(w: &mut World, target: &HostileTarget, parser: &Parser, stride: usize) {
+    let Some(base) = hostile_bytes(w, target, &HostileMut::None, parser) else { return };
+    let stride = stride.max(1);
+    let n_before = w.failed.len();
+    let mut n = 0u64;
+    // every truncation
+    for len in (0..base.len()).step_by(stride) {
+        ev_hostile(w, target, &HostileMut::Truncate { len }, parser);
+        w.outcomes.pop();
+        n += 1;
+        if w.failed.len() > n_before {
+            break;
+        }
+    }
+    // every single-byte corruption (three xor masks)
+    if w.failed.len() == n_before {
+        'outer: for pos in (0..base.len()).step_by(stride) {
+            for mask in [0x01u8, 0x80, 0xff] {
+                ev_hostile(w, target, &HostileMut::SetByte { pos, val: base[pos] ^ mask }, parser);
+                w.outcomes.pop();
+                n += 1;
+                if w.failed.len() > n_before {
+                    break 'outer;
+                }
+            }
+        }
+    }
+    // every count / length field x every boundary value
+    const BOUNDARY: &[u64] = &[0, 1, 2, 127, 128, 255, 16383, 16384, 1 << 31, (1 << 32) - 1, 1 << 32, 1 << 45, 1 << 62, 1 << 63, u64::MAX - 9, u64::MAX];
+    if w.failed.len() == n_before {
+        let kind = match target {
+            HostileTarget::Slot(i) => match w.slots.get(*i).map(|s| s.kind.clone()) {
+                Some(SlotKind::Header) => "header",
+                _ => "xenc",
+            },
+            HostileTarget::Usk(_) => "usk",
+            HostileTarget::Msk => "msk",
+            HostileTarget::Mpk => "mpk",
+            HostileTarget::Structure => "structure",
+            HostileTarget::Random { .. } => "random",
+        };
+        let fields = wire::field_spans(kind, &base).len();
+        'f: for k in 0..fields {
+            for val in BOUNDARY {
+                ev_hostile(w, target, &HostileMut::Field { k, val: *val }, parser);
+                w.outcomes.pop();
+                n += 1;
+                if w.failed.len() > n_before {
+                    break 'f;
+                }
+            }
+        }
+        for which in 0..4u8 {
+            ev_hostile(w, target, &HostileMut::Empty { which }, parser);
+            w.outcomes.pop();
+            n += 1;
+        }
+    }
+    *w.stats.checks.entry("enumerated-hostile-rewrites").or_default() += n;
+    w.stats.probe(if stride == 1 { "sweep-hostile-exhaustive" } else { "sweep-hostile-strided" });
+    w.outcomes.push(format!("sweep-hostile:{}", if w.failed.len() > n_before { "violation" } else { "clean" }));
 }
